@@ -125,6 +125,13 @@ COMPOSITES = {
             dict(name="c1", lo=3, hi=3, structure=dict(params=[V("b", U16)]))],
         default=dict(name="dflt", structure=dict(params=[V("z", U8)]))))],
         "cases": ["c0", "c1", "dflt"]},
+    "mux-unordered-cases": {"params": [SID, V("m", dict(
+        complex="mux", bytepos=1, key_dop=U8, cases=[
+            dict(name="c5", lo=5, hi=6, structure=dict(params=[V("a", U8)])),
+            dict(name="c1", lo=1, hi=4, structure=dict(params=[V("b", U16)])),
+            dict(name="c0", lo=0, hi=0, structure=None)],
+        default=dict(name="dflt", structure=dict(params=[V("z", U8)]))))],
+        "cases": ["c5", "c1", "c0", "dflt"]},
     "mux-key-bits": {"params": [SID, V("pre", U8), V("m", dict(
         complex="mux", bytepos=1, key_dop=U4, key_bitpos=4, cases=[
             dict(name="c1", lo=1, hi=1, structure=dict(params=[V("a", U8), V("b", U8)])),
@@ -133,6 +140,11 @@ COMPOSITES = {
     "length-key": {"params": [SID, dict(kind="lengthkey", name="lk", id="LK1", dop=U8),
                               V("data", dict(dt="A_UINT32", dct="paramlen", length_key="LK1")), TAIL],
                    "lengths": [8, 16, 24]},
+    # a key is the right-most parameter of a nested structure; what follows is placed by the cursor
+    "length-key-ends-structure": {"params": [SID, V("st", S([
+        V("x", U8), dict(kind="lengthkey", name="lk", id="LK5", dop=U8)])),
+        V("data", dict(dt="A_UINT32", dct="paramlen", length_key="LK5")), TAIL],
+        "lengths": [8, 16]},
     "length-key-implicit": {"params": [SID, dict(kind="lengthkey", name="lk", id="LK2", dop=U8),
                                        V("data", dict(dt="A_UINT32", dct="paramlen", length_key="LK2")),
                                        TAIL], "lengths": [None]},
